@@ -18,7 +18,14 @@ tie    : * translator (every run)
            compiled slot model predicts, per query chain on fresh twins of real objects, which
            answers differ from a fresh object and which generating expression each attribute left
            behind holds (harness/c06_attr.py)
-search : round 4: every public value-returning method is a query, whatever it writes (the measures
+         * round 5: the statement block around every restored temporary edit
+           (translate/windows_C06.py -> windows, theorems window_invisible / windows_preserve /
+           windows_ok): each block is executed on real objects under sys.settrace and the content of
+           the cached array before every line, at the return and after a raising computation is
+           compared with the compiled window model (harness/c06_window.py)
+search : round 5: temporary content visible to any package frame, edit left behind after return or
+         raise (default numpy error state and all="raise"; zero-length links, huge lengths).
+         round 4: every public value-returning method is a query, whatever it writes (the measures
          that store a link attribute included); all queries in opposite orders on two fresh twins;
          integer link lengths; obligation listing the value-returning methods never queried.
          For every class spec (shared with C01): snapshot (deep copy) every cached value,
@@ -41,6 +48,7 @@ from . import common
 from .c01 import SPECS, same, quiet, brief, query_variants, SKIP_QUERIES, skip_now, public_queries
 from . import c06_wide
 from . import c06_attr
+from . import c06_window
 
 
 def snap(v):
@@ -288,6 +296,8 @@ def _run(ctx, eff, own_tables, watch):
     c06_attr.coverage(ctx, eff, SPECS, used,
                       {c: {m for m in ms if m not in used.get(c, ())} for c, ms in raised.items()})
 
+    watch.context = "window tie"
+    c06_window.window_tie(ctx, eff, quick)
     constructors(ctx)
     array_functions(ctx)
     c06_wide.kernel_drive(ctx, watch)
